@@ -528,6 +528,10 @@ func (vc *VC) allFieldTargets(env *Env, path string) []modTarget {
 	}
 	cur := t
 	var out []modTarget
+	if valueStruct(t) {
+		n, srt := vc.cellVar(t)
+		return []modTarget{{n, srt, ""}}
+	}
 	for i, f := range parts[1:] {
 		idx, ok := fieldPath(cur, vc.P.logPkg.Types, f)
 		if !ok {
@@ -562,6 +566,11 @@ func derefT(t types.Type) types.Type {
 func (vc *VC) structTargets(t types.Type, ref string) []modTarget {
 	s, _ := isStruct(t)
 	var out []modTarget
+	if valueStruct(t) {
+		// value-like structs behind a pointer live as whole values in a cell array
+		n, srt := vc.cellVar(t)
+		return []modTarget{{n, srt, ref}}
+	}
 	for i := 0; i < s.NumFields(); i++ {
 		ft := s.Field(i).Type()
 		if subObject(ft) {
@@ -651,6 +660,10 @@ func (vc *VC) exprTargets(env *Env, e Expr, text string) []modTarget {
 			break
 		}
 		cur := base
+		if valueStruct(derefT(base.T)) {
+			n, srt := vc.cellVar(derefT(base.T))
+			return []modTarget{{n, srt, base.S}}
+		}
 		for i, fi := range path {
 			st := derefT(cur.T)
 			s, _ := isStruct(st)
@@ -707,7 +720,7 @@ func (vc *VC) frameObligations(st *State, guard string, pos token.Pos, kind stri
 	// variables possibly changed: those whose current term differs from the entry term
 	names := sortedKeys(vc.stateSort)
 	for _, n := range names {
-		if whole[n] {
+		if whole[n] || strings.HasPrefix(n, "rng_") {
 			continue
 		}
 		sortName := vc.stateSort[n]
